@@ -98,7 +98,7 @@ pub fn pipeline_invariant(slot: &mut Slot, st: &mut Stats) -> Option<Violation> 
 /// Size x quantizer sweep: intra pictures of every width x height up to `max`
 /// (Sorenson custom size), quantizers cycling through 1..31.
 fn sweep(max: u16, part: u16, parts: u16) -> Session {
-    let mut s = Session { note: format!("size sweep 1..={max} (part {part}/{parts})"), pics: vec![], events: vec![Ev::New { d: 0, opts: 1 }] };
+    let mut s = Session { note: format!("size sweep 1..={max} (part {part}/{parts})"), pics: vec![], events: vec![Ev::New { d: 0, opts: 1 }], max_chunk: 0 };
     let mut rng = Rng::new(0xC13 + part as u64);
     let mut cfg = GenCfg::draw(&mut rng, &[0]);
     cfg.density = 0;
